@@ -169,20 +169,31 @@ func c15Unit(c *RunCtx, unit int) {
 		}
 		seed()
 		// --- password login: redir in the body and in the query
-		for _, where := range []string{"body", "query"} {
+		for _, where := range []string{"body", "query", "query-twice-safe-first", "query-twice-safe-last", "body-safe-query-R", "body-R-query-safe"} {
 			b := x.browser()
 			rq := world.Req{Method: "POST", Path: P("/login"), Form: map[string]string{"email": "plain@site.test", "password": pw}}
-			if where == "body" {
+			switch where {
+			case "body":
 				rq.Form["redir"] = R
-			} else {
+			case "query":
 				rq.Path += "?redir=" + url.QueryEscape(R)
+			case "query-twice-safe-first":
+				rq.Path += "?redir=%2Fwelcome&redir=" + url.QueryEscape(R)
+			case "query-twice-safe-last":
+				rq.Path += "?redir=" + url.QueryEscape(R) + "&redir=%2Fwelcome"
+			case "body-safe-query-R":
+				rq.Form["redir"] = "/welcome"
+				rq.Path += "?redir=" + url.QueryEscape(R)
+			case "body-R-query-safe":
+				rq.Form["redir"] = R
+				rq.Path += "?redir=%2Fwelcome"
 			}
 			rec := w.Do(b, rq)
 			if rec.SessOut["uid"] == "" {
 				c.Stats.Inconclusive = append(c.Stats.Inconclusive, "setup: plain login failed: "+rec.HandlerErr)
 				return
 			}
-			x.judge("login-"+where, R, rec, true, world.PathLoginOK)
+			x.judge("login-"+where, R, rec, where == "body" || where == "query", world.PathLoginOK)
 		}
 		// --- one-time password login
 		{
@@ -256,6 +267,22 @@ func c15Unit(c *RunCtx, unit int) {
 			code = w.Prov.Authorize(world.Identity{Provider: "alpha", UID: "u1", Email: "u1@alpha.test"})
 			rec = w.Do(b, world.Req{Method: "GET", Path: P("/oauth2/callback/alpha") + "?state=" + url.QueryEscape(st) + "&code=" + url.QueryEscape(code)})
 			x.judge("oauth2-callback-with-extra-params", R, rec, false, world.PathOAuth2OK)
+			// the parameter given twice, a harmless value and R in either order: whichever of the two the
+			// library goes by, the browser stays on site
+			for _, dup := range []struct{ flow, q string }{
+				{"oauth2-callback-redir-twice-safe-first", "?redir=%2Fwelcome&redir=" + url.QueryEscape(R)},
+				{"oauth2-callback-redir-twice-safe-last", "?redir=" + url.QueryEscape(R) + "&redir=%2Fwelcome"},
+			} {
+				b = x.browser()
+				rec = w.Do(b, world.Req{Method: "GET", Path: P("/oauth2/alpha") + dup.q})
+				st = ""
+				if u, err := url.Parse(rec.Location); err == nil {
+					st = u.Query().Get("state")
+				}
+				code = w.Prov.Authorize(world.Identity{Provider: "alpha", UID: "u1", Email: "u1@alpha.test"})
+				rec = w.Do(b, world.Req{Method: "GET", Path: P("/oauth2/callback/alpha") + "?state=" + url.QueryEscape(st) + "&code=" + url.QueryEscape(code)})
+				x.judge(dup.flow, R, rec, false, world.PathOAuth2OK)
+			}
 			// the round trips that do NOT end in a login: the provider reports an error (the user declined),
 			// the code is refused, the state is wrong — wherever the browser is sent then, it stays on site
 			for _, tail := range []struct{ flow, q string }{
